@@ -166,12 +166,24 @@ func c15Sanitize(n *canon.Node) *canon.Node {
 	return n
 }
 
+// c15Recent holds names that earlier cases of this worker gave values to (bounded).
+var c15Recent []string
+
 // c15Skeleton builds a source AST with placeholder leaves ($name symbols) and decoys.
 func c15Skeleton(r *rand.Rand, names []string, d int, used map[string]int) *canon.Node {
 	ph := func() *canon.Node {
 		var n string
 		if len(names) > 0 && r.Intn(5) != 0 {
 			n = names[r.Intn(len(names))]
+		} else if len(c15Recent) > 0 && r.Intn(2) == 0 {
+			// a placeholder without a value reads as nil — also when an earlier text read in this process gave a
+			// value to the very same name
+			n = c15Recent[r.Intn(len(c15Recent))]
+			for _, have := range names {
+				if have == n {
+					n = "missing-" + n
+				}
+			}
 		} else {
 			n = "missing-" + c15Name(r) // a placeholder without a value reads as nil
 		}
@@ -276,6 +288,14 @@ func runC15(c *fw.Ctx) {
 		sort.Strings(names)
 		used := map[string]int{}
 		skel := c15Skeleton(r, names, r.Intn(4), used)
+		// remember (a bounded number of) names that have a value in this case for the cases that follow
+		for _, n := range names {
+			if len(c15Recent) < 8 {
+				c15Recent = append(c15Recent, n)
+			} else {
+				c15Recent[r.Intn(8)] = n
+			}
+		}
 		src := c15Render(r, skel)
 		expected := c15Subst(skel, vals)
 		gomap := map[string]types.MalType{}
@@ -354,10 +374,11 @@ func runC15(c *fw.Ctx) {
 
 func init() {
 	fw.Register(&fw.Property{
-		ID:     "C15",
-		Run:    runC15,
-		Rule:   "seeded cases: a source skeleton (nested lists/vectors/maps/quoted data) with 0-6 named placeholders in code position, quoted data, collections and map values, repeated or missing, decoy $names inside strings, raw strings and comments, preamble-looking comment lines at the top of the source itself, rendered with comments/newlines between tokens; values from a family stressing the transport (multi-line JSON text printed in raw form, strings that look like preamble lines, quotes/backslashes/semicolons/brackets/raw quotes, other placeholder names, nested data, hostile Unicode); the generator substitutes on its own AST; both Read_str(src, values) and READWithPreamble(AddPreamble(src, values)) must yield exactly that AST (independent structural comparison); distinct = (skeleton shape, hardest value class transported)",
-		Assume: []string{"names range over [A-Za-z0-9_-] (the preamble grammar); $MODULE is reserved", "values contain no symbol/keyword/string token starting with $ (the reader defines such tokens as placeholders)"},
+		ID:      "C15",
+		History: true,
+		Run:     runC15,
+		Rule:    "seeded cases: a source skeleton (nested lists/vectors/maps/quoted data) with 0-6 named placeholders in code position, quoted data, collections and map values, repeated or missing, decoy $names inside strings, raw strings and comments, preamble-looking comment lines at the top of the source itself, rendered with comments/newlines between tokens; values from a family stressing the transport (multi-line JSON text printed in raw form, strings that look like preamble lines, quotes/backslashes/semicolons/brackets/raw quotes, other placeholder names, nested data, hostile Unicode); the generator substitutes on its own AST; both Read_str(src, values) and READWithPreamble(AddPreamble(src, values)) must yield exactly that AST (independent structural comparison); distinct = (skeleton shape, hardest value class transported)",
+		Assume:  []string{"names range over [A-Za-z0-9_-] (the preamble grammar); $MODULE is reserved", "values contain no symbol/keyword/string token starting with $ (the reader defines such tokens as placeholders)"},
 		Finish: func(m *fw.Merged) {
 			m.Floor("transports", 5000)
 			for _, cl := range []string{"plain", "nested", "tricky-string", "raw-value", "multiline-quoted-value", "multiline-raw-value"} {
